@@ -85,6 +85,7 @@ type FuncSpec struct {
 	Virtual      bool
 	Modifies     []ModLoc
 	HasModifies  bool
+	BoundedAlloc bool // every allocation is of constant size, or made by a callee with the same clause
 	NoPanic      bool
 	Pure         bool // no effect on modelled state, result unconstrained beyond ensures
 	Trusted      bool // contract on pike code that is assumed, not verified
@@ -168,6 +169,9 @@ type Axiom struct {
 	Strings bool
 	File    string
 	Global  bool
+	Hide    string   // lemma only: glob of spec functions kept opaque in its proof
+	Reveal  []string // exceptions to Hide
+	Using   []string // lemma only: the axioms and earlier lemmas its proof may use (default: all)
 }
 
 type Spec struct {
@@ -213,7 +217,7 @@ var fnKeywords = map[string]bool{
 	"requires": true, "ensures": true, "ensures_on_panic": true, "modifies": true, "nopanic": true,
 	"trusted": true, "assumed": true, "loop": true, "acquires": true, "atunlock": true,
 	"assert": true, "update": true, "inline": true, "strings": true, "effectfree": true,
-	"ensures_local": true, "callsite": true, "virtual": true, "precall": true, "rangeloop": true,
+	"ensures_local": true, "boundedalloc": true, "uses": true, "callsite": true, "virtual": true, "precall": true, "rangeloop": true,
 }
 
 type specItem struct {
@@ -277,6 +281,9 @@ func readItems(path string, prefix string) ([]specItem, error) {
 	return items, nil
 }
 
+// lemma [name] hide <glob> except f, g: body -- the spec functions matching the glob are uninterpreted in the
+// proof of this lemma (opaque), except the listed ones; what is proved for an arbitrary function holds for the defined one
+var hideRe = regexp.MustCompile(`^(?:hide\s+(\S+)(?:\s+except\s+([\w, ]+?))?)?\s*(?:using\s+([\w, -]+?))?\s*:\s*`)
 var labelRe = regexp.MustCompile(`^\[([^\]]+)\]\s*:?\s*`)
 
 func parseClause(text, where string) (Clause, error) {
@@ -596,11 +603,27 @@ func (sp *Spec) loadSpecFile(path, prefix, pkgPath, pkgName string, assumed bool
 				strs = true
 				text = strings.TrimSpace(strings.TrimPrefix(text, "strings:"))
 			}
+			hide, except := "", []string(nil)
+			var using []string
+			if m := hideRe.FindStringSubmatch(text); m != nil && it.kw == "lemma" && (strings.HasPrefix(text, "hide ") || strings.HasPrefix(text, "using ")) {
+				hide = m[1]
+				for _, x := range strings.Split(m[3], ",") {
+					if x = strings.TrimSpace(x); x != "" {
+						using = append(using, x)
+					}
+				}
+				for _, x := range strings.Split(m[2], ",") {
+					if x = strings.TrimSpace(x); x != "" {
+						except = append(except, x)
+					}
+				}
+				text = text[len(m[0]):]
+			}
 			e, err := parseExpr(text)
 			if err != nil {
 				return fail(err)
 			}
-			sp.Axioms = append(sp.Axioms, &Axiom{Name: name, E: e, Src: text, PkgPath: pkgPath, Imports: imports, Lemma: it.kw == "lemma", Strings: strs, File: where, Global: true})
+			sp.Axioms = append(sp.Axioms, &Axiom{Name: name, E: e, Src: text, PkgPath: pkgPath, Imports: imports, Lemma: it.kw == "lemma", Strings: strs, File: where, Global: it.kw == "axiom", Hide: hide, Reveal: except, Using: using})
 		case "on":
 			// on write T.f(x, o, n)
 			m := regexp.MustCompile(`^write\s+(\w+)\.(\w+)\((\w+),\s*(\w+),\s*(\w+)\)\s*:?$`).FindStringSubmatch(it.text)
@@ -758,6 +781,15 @@ func (sp *Spec) loadSpecFile(path, prefix, pkgPath, pkgName string, assumed bool
 				cur.NoPanic = true
 			case "effectfree":
 				cur.Pure = true
+			case "boundedalloc":
+				cur.BoundedAlloc = true
+			case "uses":
+				// lemmas are facts only for the functions that ask for them
+				for _, x := range strings.Split(it.text, ",") {
+					if x = strings.TrimSpace(x); x != "" {
+						cur.UseAxioms = append(cur.UseAxioms, x)
+					}
+				}
 			case "trusted", "assumed":
 				cur.Trusted = true
 			case "inline":
